@@ -9,7 +9,9 @@ def GoodC (c : Cfg) (p : Pool) : Prop := ∀ n, c.size0 = .fin n → Good n p
 def noSetSize : Op → Bool := fun o => !o.isSetSize
 
 theorem good_init (n : Nat) (simple : Option SpawnSpec) : Good n (Pool.init (.fin n) simple) :=
-  ⟨⟨n, rfl, by simp [Pool.init, heldL, grantsL]⟩, fun i tk h _ => by simp [Pool.init] at h⟩
+  ⟨⟨n, rfl, by simp [Pool.init, heldL, grantsL]⟩, fun i tk h _ => by simp [Pool.init] at h,
+   ⟨by simp [Pool.init], fun t h => by simp [Pool.init] at h, fun t h => by simp [Pool.init] at h,
+    fun t h => by simp [Pool.init] at h, fun _ t tk h _ => by simp [Pool.init] at h⟩⟩
 
 theorem goodC_invariant : PoolInvariant GoodC noSetSize where
   init := by
